@@ -14,6 +14,7 @@ import (
 	"github.com/aws/aws-sdk-go/service/dynamodb/dynamodbiface"
 	"github.com/truora/minidyn/core"
 	"github.com/truora/minidyn/interpreter"
+	coretypes "github.com/truora/minidyn/types"
 )
 
 const (
@@ -200,16 +201,21 @@ func (fd *Client) UpdateTable(input *dynamodb.UpdateTableInput) (*dynamodb.Updat
 		return nil, awserr.New(dynamodb.ErrCodeResourceNotFoundException, "Cannot do operations on a non-existent table", nil)
 	}
 
+	var attrs []*coretypes.AttributeDefinition
 	if input.AttributeDefinitions != nil {
-		table.SetAttributeDefinition(mapAttributeValueDefinitionToDynamodb(input.AttributeDefinitions))
+		attrs = mapAttributeValueDefinitionToDynamodb(input.AttributeDefinitions)
 	}
 
+	changes := make([]*coretypes.GlobalSecondaryIndexUpdate, 0, len(input.GlobalSecondaryIndexUpdates))
 	for _, change := range input.GlobalSecondaryIndexUpdates {
-		if err := table.ApplyIndexChange(mapGlobalSecondaryIndexUpdateToTypes(change)); err != nil {
-			return &dynamodb.UpdateTableOutput{
-				TableDescription: mapTableDescriptionToDynamodb(table.Description(tableName)),
-			}, err
-		}
+		changes = append(changes, mapGlobalSecondaryIndexUpdateToTypes(change))
+	}
+
+	// a failing change leaves the table as it was
+	if err := table.ApplyIndexChanges(attrs, changes); err != nil {
+		return &dynamodb.UpdateTableOutput{
+			TableDescription: mapTableDescriptionToDynamodb(table.Description(tableName)),
+		}, err
 	}
 
 	return &dynamodb.UpdateTableOutput{
